@@ -226,7 +226,12 @@ class TCPRegistryServer(RegistryServer):
     def _recv(self):
         sock2, _ = self.sock.accept()
         addrinfo = sock2.getpeername()
-        data = sock2.recv(MAX_DGRAM_SIZE)
+        sock2.settimeout(self.TIMEOUT)
+        try:
+            data = sock2.recv(MAX_DGRAM_SIZE)
+        except Exception:
+            sock2.close()
+            raise
         self._connected_sockets[addrinfo] = sock2
         return data, addrinfo
 
